@@ -118,7 +118,7 @@ func TestC03(t *testing.T) {
 	defer closeSUT()
 	// a side effect on a delivery that was not named shows up as that delivery
 	// going missing (C01 rule) or being delivered inside its lease (C04 rule)
-	sp := e1Spec{prop: "C03", profile: profC03, armed: []string{"C03", "C01", "C04"}, drain: true,
+	sp := e1Spec{prop: "C03", profile: profC03, armed: []string{"C03", "C01", "C04", "C06", "C02"}, drain: true,
 		nontrivial: func(r *hist.Runner) bool {
 			return r.M.C["nack-after-ack"]+r.M.C["modack-after-ack"] > 0 && r.M.C["nt/acked-at-pull"] >= 2
 		}}
@@ -201,7 +201,8 @@ var profC13 = &hist.Profile{
 	},
 	Ordered: 20, Keys: []string{"", "K1"}, Filters: []string{"", "", `attributes:x`},
 	Retry: 60, MinBs: []time.Duration{100 * ms, sec, 10 * sec}, MaxBs: []time.Duration{0, 5 * sec},
-	Rets: []time.Duration{0, 30 * day},
+	Rets:      []time.Duration{30 * day},
+	AdvScales: []time.Duration{ms, 100 * ms, sec, 5 * sec, 11500 * ms, minute, hour},
 	Prelude: func(t *rapid.T, g *hist.Gen) {
 		preludeTopics(1)(t, g)
 		cfg := g.GenCfg("s0")
